@@ -63,10 +63,23 @@ def blotterProcessClosed (w : World) (mid : Nat) (book : Book) : World :=
 
 /-- `Market.cleared(client)` → (profit, commission, betCount) -/
 def marketCleared (w : World) (mid cid : Nat) : Rat × Rat × Nat :=
-  let os := (((w.market! mid).blotter.map w.order!).filter fun o => o.client = some cid ∧ 0 < o.sim.sizeMatched)
+  let os := (((w.market! mid).blotter.map w.order!).filter fun o => o.blotterClient = some cid ∧ 0 < o.sim.sizeMatched)
   let profit := round2 (sumRat (os.map simProfit))
   let commission := round2 (ratMax (profit * (w.client! cid).commission) 0)
   (profit, commission, os.length)
+
+/-- the `strategy.process_closed_market` calls of one closing update: one per strategy that is
+    subscribed to the book's stream or has an empty market filter, in registration order -/
+def closeCallbacks (w : World) (mid : Nat) (book : Book) : List Ev :=
+  (w.strategies.filter fun s => s.streams.contains book.streamId || s.emptyFilter).map
+    fun s => .closedCallback s.id mid book.pt
+
+/-- the simulated ClearedOrdersMetaEvent (only when the blotter has orders) and one
+    ClearedMarketsEvent per client, in client order -/
+def clearedEvents (w : World) (mid : Nat) : List Ev :=
+  let n := (w.market! mid).blotter.length
+  (if n ≠ 0 then [Ev.clearedOrders mid n] else []) ++
+    w.clients.map fun c => Ev.clearedMarket mid c.id (w.marketCleared mid c.id).1 (w.marketCleared mid c.id).2.1 (w.marketCleared mid c.id).2.2
 
 /-- `BaseFlumine._process_close_market` (resource form, simulated clients) -/
 def processCloseMarket (w : World) (mid : Nat) (book : Book) : World :=
@@ -77,16 +90,8 @@ def processCloseMarket (w : World) (mid : Nat) (book : Book) : World :=
     -- market(market_book); blotter.process_closed_market
     let w := w.modifyMarket mid fun m => { m with book := some book }
     let w := w.blotterProcessClosed mid book
-    -- strategy.process_closed_market for subscribed strategies and empty filters
-    let w := w.strategies.foldl (fun w s =>
-      if s.streams.contains book.streamId ∨ s.emptyFilter then w.emit (.closedCallback s.id mid book.pt) else w) w
-    -- simulated ClearedOrdersEvent (meta event only when the blotter has orders) and ClearedMarketsEvent per client
-    let n := (w.market! mid).blotter.length
-    let w := if n ≠ 0 then w.emit (.clearedOrders mid n) else w
-    let w := w.clients.foldl (fun w c =>
-      let (p, cm, bc) := w.marketCleared mid c.id
-      w.emit (.clearedMarket mid c.id p cm bc)) w
-    let w := w.emit (.closeEvent mid)
+    -- callbacks, then the simulated cleared events, then the close event itself goes to the logging controls
+    let w := { w with out := w.out ++ w.closeCallbacks mid book ++ w.clearedEvents mid ++ [Ev.closeEvent mid] }
     -- simulated: _remove_market(market, clear=False): middleware.remove_market, strategy.remove_market
     let w := w.modifyMarket mid fun m => { m with analytics := [], hasAnalytics := false }
     { w with ctxs := w.ctxs.filter fun c => c.key.market ≠ mid }
